@@ -14,7 +14,7 @@ import (
 func init() {
 	register("C11", &ruleSet{
 		run:    runC11,
-		floors: map[string]int{"O1": 1, "O2": 3, "O3": 8, "O4": 1, "O5": 3, "O6": 5},
+		floors: map[string]int{"O1": 1, "O2": 3, "O3": 8, "O4": 1, "O5": 3, "O6": 5, "O7": 2},
 		explain: "Decides structurally that the configured order reaches the queue and that the queue's two ends are used consistently: (O1) in the queue-limiter " +
 			"constructor the backlog's ordering field is stored from the config's ordering field read after defaulting (a constant is a violation); (O2) if push " +
 			"inserts at end P of the list, the FIFO case of the selection reads the opposite end and the LIFO case the same end, the selection is exhaustive over " +
@@ -80,6 +80,8 @@ func runC11(p *Prog, l *Ledger) {
 	l.Rule("O6", "the freed capacity goes to the selected waiter (decided by the C10/O3 and O5 rules on the same tree): every completion reaches the hand-off after the delegate has released, and the hand-off is one critical section with arrivals - otherwise the next arrival takes the capacity ahead of everybody queued")
 	importObligations(p, l, "C10", "O6", func(o *Obligation) bool { return (o.Rule == "O3" || o.Rule == "O5") && (strings.Contains(o.Key, "limiter.Queue") || strings.Contains(o.Key, "limiter.queue")) })
 	l.Rule("O3", "constructors and pools select the order their name states; the default ordering is LIFO")
+	l.Rule("O7", "a pool's ordering is that of a queue limiter built for it (decided by the C19/O1 rule on the same tree): the pool's limiter is, on every path, the wrapper its constructor builds from its own arguments - a limiter taken from somewhere else (a cache keyed by the delegate, a shared instance) carries whatever ordering it was first built with")
+	importObligations(p, l, "C19", "O7", func(o *Obligation) bool { return o.Rule == "O1" })
 	l.Rule("O4", "unblock (peek, acquire for the waiter, evict, deliver) is one exclusive critical section of the limiter mutex")
 	l.NotCovered = []string{"that arrival order equals push order (C10/O5a)", "scheduler effects on which woken caller proceeds first"}
 
